@@ -64,6 +64,7 @@ static inline void ABTI_pool_add_thread(ABTI_thread *p_thread,
     /* Set the ULT's state as READY. The relaxed version is used since the state
      * is synchronized by the following pool operation. */
     ABTD_atomic_relaxed_store_int(&p_thread->state, ABT_THREAD_STATE_READY);
+    ABTI_VERIF_POINT(ABTI_VERIF_P_PUSH_BEFORE_LOCK);
     /* Add the ULT to the associated pool */
     ABTI_pool_push(p_thread->p_pool, p_thread->unit, context);
 }
